@@ -25,6 +25,39 @@ pub enum Source {
     Tern(usize, u64, u64),
     /// SP: large sparse ADFs (70 / 130 / 270 statements, 7 open ones at the highest positions), `count` instances
     Sparse(u64, u64),
+    /// labels that spell formulas: statements a, b and X, where the quoted label X is a rendering of a formula f(a,b) -
+    /// in the input syntax or as the library itself prints the parsed condition; f is the whole condition of a, the
+    /// atom X the whole condition of b (in both fact orders), neg(a) the condition of X
+    Spelled,
+}
+
+/// the fixed formulas over the two atoms a and b (every connective in every argument position)
+fn spelled_formulas() -> Vec<Fm> {
+    crate::c08::position_formulas()
+        .into_iter()
+        .filter(|f| {
+            let mut s = std::collections::BTreeSet::new();
+            f.atoms(&mut s);
+            // (a bare atom would spell the label of an existing statement)
+            s.iter().all(|a| *a < 2) && !matches!(f, Fm::Atom(_))
+        })
+        .collect()
+}
+
+pub fn spelled_size() -> u64 {
+    spelled_formulas().len() as u64 * 4
+}
+
+/// the library's own rendering of a parsed condition
+fn library_rendering(f: &Fm) -> String {
+    let labels = names(2);
+    let text = format!("s(a).s(b).ac(a,{}).ac(b,b).", f.text(&labels, ("", "")));
+    let parser = adf_bdd::parser::AdfParser::default();
+    if parser.parse()(&text).is_err() {
+        return f.text(&labels, ("", ""));
+    }
+    // the conditions are kept in the order in which they were written
+    parser.ac_at(0).map(|x| format!("{:?}", x)).unwrap_or_default()
 }
 
 /// labels that are not declared in sorted order under either sorting (b10 < b9 byte-wise, 9 < 10 naturally)
@@ -69,6 +102,7 @@ impl Source {
                 }
             }
             Source::Sparse(_, count) => format!("SP: {} large sparse ADFs (70/130/270 statements, open ring at positions beyond 63 / 255)", count),
+            Source::Spelled => "labels that spell a formula of the same ADF (input syntax and the library's own rendering)".to_string(),
             Source::Ring(n, first, step) => {
                 if *step == 1 {
                     format!("R({}): all ring ADFs with {} statements", n, n)
@@ -84,6 +118,7 @@ impl Source {
             Source::Formulas(..) => 2,
             Source::Ring(n, _, _) | Source::Tern(n, _, _) => *n,
             Source::Sparse(..) => 270,
+            Source::Spelled => 3,
         }
     }
     pub fn size(&self) -> u64 {
@@ -92,6 +127,7 @@ impl Source {
             Source::FamAllWriters(f) => f.size() * (WRITERS as u64).pow(f.n as u32),
             Source::Formulas(_, l) => l.len() as u64,
             Source::Sparse(_, count) => *count,
+            Source::Spelled => spelled_size(),
             Source::Tern(n, first, step) => {
                 let raw = crate::mid::tern_size(*n);
                 if *first >= raw {
@@ -182,6 +218,22 @@ impl Source {
                 let text = l.text(Some(&perm), ("", "", ""));
                 Case { tts: vec![], text, fms: l.conds.clone(), sorting: (k % 3) as usize, labels: l.labels.clone(), formulas: Some(std::sync::Arc::new(l)) }
             }
+            Source::Spelled => {
+                let pf = spelled_formulas();
+                let f = pf[(k / 4) as usize].clone();
+                let plain = names(2);
+                let x = if k % 2 == 0 { f.text(&plain, ("", "")) } else { library_rendering(&f) };
+                let labels = vec!["a".to_string(), "b".to_string(), x.clone()];
+                let written = vec!["a".to_string(), "b".to_string(), format!("\"{}\"", x)];
+                let fms = vec![f, Fm::Atom(2), Fm::not(Fm::Atom(0))];
+                let tts: Vec<TT> = fms.iter().map(|g| g.tt(3)).collect();
+                let mut text = format!("s(a).s(b).s({}).", written[2]);
+                let order: [usize; 3] = if (k / 2) % 2 == 0 { [0, 1, 2] } else { [1, 0, 2] };
+                for i in order {
+                    text += &format!("ac({},{}).", written[i], fms[i].text(&written, ("", "")));
+                }
+                Case { tts, text, fms, sorting: 0, labels, formulas: None }
+            }
             Source::Formulas(_, l) => {
                 let phi = l[k as usize].clone();
                 let ps = psi(k as usize);
@@ -216,6 +268,7 @@ pub fn standard_sources(run: &Run, with_formulas: bool) -> Vec<Source> {
         Source::Fam(fam_f(4, 1)),
         Source::FamPresented(fam_a(2)),
         Source::FamPresented(fam_f(3, 2)),
+        Source::Spelled,
     ];
     if with_formulas {
         let l = if run.tier == Tier::Quick {
